@@ -7,6 +7,7 @@ mod c07;
 mod c03;
 mod c05;
 mod c08;
+mod c09;
 mod c13;
 mod c14;
 mod c12;
@@ -51,6 +52,8 @@ fn run(name: &str, args: &Value) -> Value {
         "c13_registry" => c13::registry(args),
         "c14_ports" => c14::ports(args),
         "c14_single_entry" => c14::single_entry(args),
+        "c09_server_bytes" => c09::server_bytes(args),
+        "c09_send_fails_on_unsubscribe" => c09::send_fails_on_unsubscribe(args),
         "c08_append" => c08::append(args),
         "c08_response" => c08::response(args),
         other => {
